@@ -76,7 +76,6 @@ func VerifC02HandlerPaging(h *verifh.H) {
 			}
 			got, next := read(what, q)
 			if len(got) == 0 {
-				h.Assert(next == tok || tok == "", "an empty page hands back the token it was asked with :: "+what)
 				break
 			}
 			paged = append(paged, got...)
